@@ -237,6 +237,11 @@ var Shapes = []Shape{
 	{Name: "basic-plain", Lines: func(p ShapeParams) []string { return []string{`Basic realm="Registry Realm"`} }, Basic: true},
 	{Name: "basic-bare", Lines: func(p ShapeParams) []string { return []string{"Basic"} }, Basic: true},
 	{Name: "basic-lower-token", Lines: func(p ShapeParams) []string { return []string{"basic realm=reg, charset=\"UTF-8\""} }, Basic: true},
+	// a Basic protection space that happens to be spelt like a URL (of a token server nobody named as one)
+	{Name: "basic-url-realm", Lines: func(p ShapeParams) []string { return []string{"Basic realm=" + quote(p.Realm2)} }, Basic: true},
+	{Name: "both-basic-url-realm-first", Lines: func(p ShapeParams) []string {
+		return []string{"Basic realm=" + quote(p.Realm2), plain(p)}
+	}, Bearer: fullBearer, Basic: true},
 	{Name: "basic-malformed", Lines: func(p ShapeParams) []string { return []string{`Basic realm="Registry`} }},
 	{Name: "both-bearer-first", Lines: func(p ShapeParams) []string { return []string{plain(p), `Basic realm="Registry Realm"`} }, Bearer: fullBearer, Basic: true},
 	{Name: "both-basic-first", Lines: func(p ShapeParams) []string { return []string{`Basic realm="Registry Realm"`, plain(p)} }, Bearer: fullBearer, Basic: true},
